@@ -9,7 +9,8 @@ chk = Check("C03X")
 cfg = {'shape': [2, 3, 2], 'hasw': True, 'op': 'cp', 'rank': [2], 'bad': 'none', 'at': 0, 'lens': [],
        'fshapes': [[2, 2], [3, 2], [2, 2]], 'wlen': 2, 'coreshape': [], 'pshapes': [], 'dl': 0, 'pden': 1, 'skip': -1, 'tr': False, 'modes': [],
        'mix': 'none', 'dens': [1, 1, 1], 'cden': 1, 'imk': 0, 'outdtype': 'float64', 'dtypes': ['float64'] * 3,
-       'late': False, 'mag': 0, 'bfshapes': [], 'bcoreshape': [], 'bpshapes': [], 'bwlen': 0}
+       'late': False, 'mag': 0, 'bfshapes': [], 'bcoreshape': [], 'bpshapes': [], 'bwlen': 0,
+       'wshape': [2], 'tmag': 0, 'zero': 'none', 'alldtype': 'float64'}
 ev = c03.execute({"id": "good", "cfg": cfg, "seed": 1, "k": 0, "draw": 0})
 evs = [ev]
 def mut(name, f):
@@ -31,7 +32,7 @@ e4 = copy.deepcopy(e2); e4["id"] = "inv_converted"; e4["runs"]["core_convert"]["
 cfg3 = dict(cfg, op="p2", shape=[2, 2], rank=[2], lens=[3, 2], bad="nonorth_zero", at=1, fshapes=[[2, 2], [2, 2], [2, 2]], pshapes=[[3, 2], [2, 2]])
 e5 = c03.execute({"id": "inv_p2_good", "cfg": cfg3, "seed": 1, "k": 0, "draw": 0}); evs.append(e5)
 e6 = copy.deepcopy(e5); e6["id"] = "inv_p2_accepted"; e6["runs"]["einsum_object"]["rejected"] = False; evs.append(e6)
-cfg4 = dict(cfg, op="tucker", hasw=False, wlen=0, shape=[2, 3, 2], rank=[2, 1, 2], fshapes=[[2, 2], [3, 1], [2, 2]], coreshape=[2, 1, 2], skip=1)
+cfg4 = dict(cfg, op="tucker", hasw=False, wlen=0, wshape=[], shape=[2, 3, 2], rank=[2, 1, 2], fshapes=[[2, 2], [3, 1], [2, 2]], coreshape=[2, 1, 2], skip=1)
 e7 = c03.execute({"id": "opt_good", "cfg": cfg4, "seed": 1, "k": 0, "draw": 0}); evs.append(e7)
 e8 = copy.deepcopy(e7); e8["id"] = "opt_vec_full"; e8["runs"]["core_tuple"]["vec"]["data"][0] += 1; evs.append(e8)
 cfg5 = dict(cfg, mix="cplx_last", dens=[2, 2, 2], imk=3, outdtype="complex128", dtypes=["float64", "float64", "complex128"])
@@ -49,11 +50,19 @@ evs.append(e15)
 e16 = copy.deepcopy(e15); e16["id"] = "late_inv_accepted"; e16["runs"]["einsum_late"]["rejected"] = False; evs.append(e16)
 cfg8 = dict(cfg, mag=-500)
 e17 = c03.execute({"id": "mag_good", "cfg": cfg8, "seed": 1, "k": 0, "draw": 0}); evs.append(e17)
+cfg9 = dict(cfg, bad="wshape", at=2, wshape=[2, 2], wlen=4)                     # weights given as a 2 x 2 matrix
+e18 = c03.execute({"id": "wshape_good", "cfg": cfg9, "seed": 1, "k": 0, "draw": 0}); evs.append(e18)
+e19 = copy.deepcopy(e18); e19["id"] = "wshape_accepted"; e19["runs"]["core_object"]["rejected"] = False; evs.append(e19)
+cfg10 = dict(cfg, zero="part")
+e20 = c03.execute({"id": "zero_good", "cfg": cfg10, "seed": 1, "k": 0, "draw": 0}); evs.append(e20)
+e21 = copy.deepcopy(e20); e21["id"] = "zero_norm_eps"; e21["runs"]["core_tuple"]["norm"]["iszero"] = False; evs.append(e21)
+cfg11 = dict(cfg, tmag=-30)
+e22 = c03.execute({"id": "tmag_good", "cfg": cfg11, "seed": 1, "k": 0, "draw": 0}); evs.append(e22)
 rej = chk.validate("FactorizedTrace", evs)
 for r in sorted(rej): print(r)
 print("machinery:", chk.machinery)
 ids = {r[0] for r in rej}
-good = {"good", "inv_good", "inv_p2_good", "opt_good", "mix_good", "late_good", "late_inv_good", "mag_good"}
+good = {"good", "inv_good", "inv_p2_good", "opt_good", "mix_good", "late_good", "late_inv_good", "mag_good", "wshape_good", "zero_good", "tmag_good"}
 assert not chk.machinery and not (ids & good) and len(ids) == len(evs) - len(good), ("self-test failed", ids & good)
 print("OK: %d corrupted events rejected, %d genuine events accepted" % (len(ids), len(good)))
 shutil.rmtree(chk.work)
